@@ -189,7 +189,13 @@ Definition check_dur (s : bytes) (std pyro : option Z) (e : dur_expr) : verdict 
                | DXTerms _ terms => existsb (fun t => is_extra_unit (snd t)) terms
                | DXNone => has_byte 100 s || has_byte 77 s || has_byte 121 s
                end in
-  let known_min := opt_Z_eqb std (Some min_int64) && opt_Z_eqb pyro None in
+  (* signature min_int64_duration of the known finding duration-min-int64: the standard parser accepts the string only
+     because it admits the magnitude 1<<63 in its accumulators (MinInt64 itself, or its wrap 2^63 + 2^63 = 0), the copy
+     rejects it *)
+  let known_min := match std, pyro with
+                   | Some _, None => match std_parse_duration_b max_int64 s with PErr => true | _ => false end
+                   | _, _ => false
+                   end in
   combine_verdicts [
     match e with
     | DXTerms neg terms => corr (beqb s (render_dur neg terms)) "harness: expression does not match the string"
